@@ -23,8 +23,8 @@ StateOfRun(e) ==
   IF e.kind \in RangeKinds
     THEN LET s == OfLog(e.start)
              en == OfLog(e.end) IN
-         [base |-> s, len |-> LenOfBounds(s, en), pos |-> Zero, buf |-> Zero, done |-> FALSE, start |-> s, end |-> en, skipped |-> FALSE, skipFrom |-> Zero, ctr |-> Zero]
-    ELSE [base |-> N(0, 100), len |-> N(0, e.len), pos |-> Zero, buf |-> Zero, done |-> FALSE, start |-> Zero, end |-> N(0, e.len), skipped |-> FALSE, skipFrom |-> Zero, ctr |-> Zero]
+         [base |-> s, len |-> LenOfBounds(s, en), pos |-> Zero, buf |-> Zero, done |-> FALSE, start |-> s, end |-> en, skipped |-> FALSE, skipFrom |-> Zero, ctr |-> Zero, endSeen |-> FALSE, req |-> Zero]
+    ELSE [base |-> N(0, 100), len |-> N(0, e.len), pos |-> Zero, buf |-> Zero, done |-> FALSE, start |-> Zero, end |-> N(0, e.len), skipped |-> FALSE, skipFrom |-> Zero, ctr |-> Zero, endSeen |-> FALSE, req |-> Zero]
 
 MapLog(s) == [j \in 1..Len(s) |-> OfLog(s[j])]
 
@@ -38,6 +38,11 @@ SameB(x, r) ==
     [] x.k = "hasmore" -> r.k = "hasmore" /\ (IF x.v = Zero THEN r.a = "no" ELSE r.a = "yes" /\ OfLog(r.v) = x.v)
     [] x.k = "seq" -> r.k = "seq" /\ MapLog(r.vals) = x.vals /\ r.full = x.full
     [] OTHER -> r.k = x.k
+
+\* a pull that delivers something, or a length query that reports elements
+Delivers(r) == \/ r.k \in {"item", "chunk"}
+               \/ (r.k = "len" /\ r.some /\ OfLog(r.v) # Zero)
+               \/ (r.k = "hasmore" /\ r.a = "yes")
 
 Adv == l' = l + 1
 Keep == UNCHANGED <<st, h, run, ign, cur, viol, cnt>>
@@ -74,8 +79,17 @@ TRet ==
   /\ IF cur.k \in {"drop", "bdrop"} THEN UNCHANGED <<st, ign, viol, cnt>>
      ELSE LET x == Expected(st, cur) IN
           IF SameB(x[1], E.res) \/ (cur.k = "intoseq" /\ st.skipped /\ SeqAfterSkipOK(E.res))
-            THEN st' = [x[2] EXCEPT !.ctr = Ctr(st, cur)] /\ cnt' = [cnt EXCEPT ![2] = @ + 1] /\ UNCHANGED <<ign, viol>>
+            THEN /\ st' = [x[2] EXCEPT !.ctr = Ctr(st, cur), !.req = Add(@, Requested(st, cur)),
+                                        !.endSeen = @ \/ (IsPull(cur) /\ x[1].k = "none")]
+                 /\ cnt' = [cnt EXCEPT ![2] = @ + 1] /\ UNCHANGED <<ign, viol>>
             ELSE /\ viol' = viol \cup {<<run, IF Wrapped(st) THEN "BoundaryAfterWrap" ELSE "Boundary", l>>}
+                                 \* the same mismatch read as C06 / C05: a pull that started after skip_to_end had returned /
+                                 \* after an end report delivers, or a length query is positive again (outside the
+                                 \* wrapped-counter regime of finding G2, and for C05 within its precondition on requests)
+                                 \cup (IF st.skipped /\ ~Wrapped(st) /\ Fits(Ctr(st, cur)) /\ Delivers(E.res)
+                                        THEN {<<run, "SkipSticksB", l>>} ELSE {})
+                                 \cup (IF st.endSeen /\ ~Wrapped(st) /\ Fits(Add(st.req, Requested(st, cur))) /\ Delivers(E.res)
+                                        THEN {<<run, "EndSticksB", l>>} ELSE {})
                  /\ ign' = TRUE
                  /\ UNCHANGED <<st, cnt>>
   /\ UNCHANGED <<h, run, cur>>
@@ -95,7 +109,7 @@ TOther ==
 
 TInit == /\ l = 1 /\ run = -1 /\ ign = TRUE /\ viol = {} /\ cnt = <<0, 0>>
          /\ cur = [k |-> "", n |-> Zero, take |-> -1]
-         /\ st = [base |-> Zero, len |-> Zero, pos |-> Zero, buf |-> Zero, done |-> FALSE, start |-> Zero, end |-> Zero, skipped |-> FALSE, skipFrom |-> Zero, ctr |-> Zero]
+         /\ st = [base |-> Zero, len |-> Zero, pos |-> Zero, buf |-> Zero, done |-> FALSE, start |-> Zero, end |-> Zero, skipped |-> FALSE, skipFrom |-> Zero, ctr |-> Zero, endSeen |-> FALSE, req |-> Zero]
          /\ h = << >>
 TNext == TReset \/ TCall \/ TRet \/ TBad \/ TOther
 TSpec == TInit /\ [][TNext]_allv
